@@ -26,13 +26,21 @@ var synEntries = [][]spec.SynEntry{
 // after the original numbering so that existing kind numbers keep their meaning).
 var threeTerms = []spec.SynEntry{{Term: "a", Syns: []string{"x"}}, {Term: "c", Syns: []string{"z", "x"}}, {Term: "b", Syns: []string{"y"}}}
 
-// NumSynDocKinds = 1 ordinary + 2 thesauri x 7 entry shapes + 2 thesauri x the three-term shape.
-var NumSynDocKinds = 1 + 2*len(synEntries) + 2
+// noSynonyms: a definition document whose only term has NO synonym (kinds 17 / 18): the
+// thesaurus exists (the field is there) but holds nothing.
+var noSynonyms = []spec.SynEntry{{Term: "a", Syns: nil}}
+
+// NumSynDocKinds = 1 ordinary + 2 thesauri x 7 entry shapes + 2 x the three-term shape + 2 x the synonym-less shape.
+var NumSynDocKinds = 1 + 2*len(synEntries) + 2 + 2
 
 func SynDoc(i int, kind int) spec.Doc {
 	id := fmt.Sprintf("d%d", i)
 	if kind == 0 {
 		return spec.Doc{ID: id, Fields: []spec.Field{{Name: "f", Len: 1, Stored: true, Value: []byte("x"), Toks: []spec.Tok{{Term: "x", Freq: 1}}}}}
+	}
+	if kind > 2*len(synEntries)+2 {
+		name := []string{"s1", "s2"}[kind-2*len(synEntries)-3]
+		return spec.Doc{ID: id, IDLast: true, Fields: []spec.Field{{Name: name, Kind: spec.Synonym, Syn: noSynonyms}}}
 	}
 	if kind > 2*len(synEntries) {
 		name := []string{"s1", "s2"}[kind-2*len(synEntries)-1]
